@@ -7,7 +7,9 @@ from mirfacts import callee_path, resolved_id
 
 FLATTEN = {'CodeBlock': ['Code'], 'ModuleImport': ['ImportItems']}
 
-IMPORT_PREFIX = grammar._u(['Import', 'As', 'Colon', 'Star', 'Ident'], grammar.CODE_EXPR, grammar.TRIVIA)
+# before the items no line comment can occur: outside parentheses a line break ends the import (parser: module_import, code mode), and the
+# trivia after the last token of a node are not part of the node
+IMPORT_PREFIX = grammar._u(['Import', 'As', 'Colon', 'Star', 'Ident'], grammar.CODE_EXPR, ['Space', 'BlockComment'])
 IMPORT_ITEMS_PART = grammar._u(['LeftParen', 'RightParen', 'ImportItems'], grammar.TRIVIA)
 IMPORT_ITEMS_FLAT = grammar._u(['LeftParen', 'RightParen', 'ImportItemPath', 'RenamedImportItem', 'Comma'], grammar.TRIVIA)
 CHAIN_NODES = grammar._u(grammar.CODE_EXPR, ['MathIdent'])
@@ -404,7 +406,7 @@ def context(mode=None, suppressed=None):
     return Agg('typstyle_core::pretty::context::Context', None, [md, TOP if suppressed is None else Const(suppressed)])
 
 
-def evaluate_sequence(w, b, param, parent_kind, seq, no_inline=None, max_paths=4000, ctx=None, extra=None, hooks=None, with_wholes=False):
+def evaluate_sequence(w, b, param, parent_kind, seq, no_inline=None, max_paths=4000, ctx=None, extra=None, hooks=None, with_wholes=False, edge_hint=None, peel=None):
     """evaluate consecutive iterations <seq[0], seq[1], ..> of every loop over syntax nodes in converter b (state carried
     from one iteration to the next, all other state unknown); returns [(loop, [events of step 0], [events of step 1], ..)]"""
     ip = Interp(w, max_depth=12, max_paths=max_paths, max_steps=200000)
@@ -416,8 +418,17 @@ def evaluate_sequence(w, b, param, parent_kind, seq, no_inline=None, max_paths=4
             return None
         if f.body.short.endswith('chain::{impl#0}::process') and depth == 0:
             return [Node('operand', parent_kind)]      # the chain node whose children are then iterated
+        dflt = grammar._u(grammar.CHILDREN.get(parent_kind, []), [x for fk in FLATTEN.get(parent_kind, []) for x in grammar.CHILDREN.get(fk, [])])
+        kinds = loop_kinds_override(b.short, f.body.short, depth, True, dflt)
+        if kinds is not None and isinstance(seq[0], Node) and seq[0].kind not in kinds:
+            return []         # this loop iterates a part of the children in which the first item of the sequence cannot occur
         return ('seq', list(seq))
     ip.loop_items_cb = items
+    if edge_hint:
+        ip.children_edge_hint = edge_hint
+    if peel:
+        ip.peel_cb = peel
+        ip.dedupe_loops = False
     m = Machine()
     cells = {i: Cell('p%d' % i) for i in range(1, b.arg_count + 1)}
     cells[param].val = Node('parent', parent_kind)
